@@ -11,6 +11,10 @@ pub mod c06sel;
 pub mod c07;
 pub mod c07core;
 pub mod c07low;
+pub mod c08;
+pub mod c08gen;
+pub mod c08mut;
+pub mod c08rd;
 pub mod c14;
 pub mod c14_avro;
 pub mod c14_ipc;
@@ -27,6 +31,7 @@ pub fn run(id: &str, ctx: &mut Ctx) -> bool {
         "C05" => c05::run(ctx),
         "C06" => c06::run(ctx),
         "C07" => c07::run(ctx),
+        "C08" => c08::run(ctx),
         "C14" => c14::run(ctx),
         "C15" => c15::run(ctx),
         "C17" => c17::run(ctx),
